@@ -45,28 +45,80 @@ MODULES = {'ebb_serial': ebb_serial, 'ebb_motion': ebb_motion,
 
 # ---------------------------------------------------------------------------
 # isolation between scenarios: the code under test must start every scenario from the state it has
-# right after import.  Module-level containers and memoising caches (a refactor may add them) would
-# otherwise carry facts from one scenario into the next and make a run depend on its worker's past.
+# right after import.  Module-level variables, class-level attributes, mutable default arguments and
+# memoising caches (a refactor may add any of them) would otherwise carry facts from one scenario into
+# the next and make a run depend on its worker's past - which breaks replay.  Inside one scenario such
+# state persists, exactly as it would inside one host program.
+
+import copy as _copy
+import types as _types
 
 _PRISTINE = {}
+_CONTAINERS = (dict, list, set, bytearray)
+
+
+def _is_data(v):
+    return not (isinstance(v, (_types.ModuleType, type)) or callable(v) or
+                isinstance(v, (property, staticmethod, classmethod)))
+
+
+def _snap_ns(ns):
+    data, funcs = {}, []
+    for k, v in list(ns.items()):
+        if k.startswith('__') and k.endswith('__'):
+            continue
+        if _is_data(v):
+            try:
+                data[k] = (v, _copy.deepcopy(v) if isinstance(v, _CONTAINERS) else v)
+            except Exception:
+                data[k] = (v, v)
+        f = v.__func__ if isinstance(v, (staticmethod, classmethod)) else v
+        if isinstance(f, _types.FunctionType):
+            funcs.append((f, _copy.deepcopy(f.__defaults__), _copy.deepcopy(f.__kwdefaults__)))
+    return set(ns), data, funcs
 
 
 def _snapshot_modules():
-    import copy
     for name, mod in MODULES.items():
-        snap = {}
-        for k, v in vars(mod).items():
-            if k.startswith('__'):
-                continue
-            if isinstance(v, (dict, list, set, bytearray)):
+        classes = [v for v in vars(mod).values() if isinstance(v, type) and v.__module__ == mod.__name__]
+        _PRISTINE[name] = (_snap_ns(vars(mod)), [(c, _snap_ns(vars(c))) for c in classes])
+
+
+def _restore(owner, ns, snap, is_class):
+    names, data, funcs = snap
+    for k in [k for k in list(ns) if k not in names and not (k.startswith('__') and k.endswith('__'))]:
+        if is_class:
+            delattr(owner, k)
+        else:
+            del ns[k]
+    for k, (obj, orig) in data.items():
+        cur = ns.get(k, None)
+        if isinstance(obj, _CONTAINERS):
+            if obj != orig:
+                fresh = _copy.deepcopy(orig)
+                if isinstance(obj, dict):
+                    obj.clear()
+                    obj.update(fresh)
+                elif isinstance(obj, set):
+                    obj.clear()
+                    obj.update(fresh)
+                else:
+                    obj[:] = fresh
+            if cur is not obj:
+                setattr(owner, k, obj)
+        else:
+            if hasattr(obj, 'clear') and hasattr(obj, '__len__') and not isinstance(obj, (str, bytes, tuple)):
                 try:
-                    snap[k] = (v, copy.deepcopy(v))
+                    obj.clear()               # e.g. a WeakKeyDictionary that was empty at import
                 except Exception:
                     pass
-        _PRISTINE[name] = (set(vars(mod)), snap)
-
-
-def _clear_caches(ns):
+            if cur is not obj:
+                setattr(owner, k, obj)
+    for f, d, kd in funcs:
+        if f.__defaults__ != d:
+            f.__defaults__ = _copy.deepcopy(d)
+        if f.__kwdefaults__ != kd:
+            f.__kwdefaults__ = _copy.deepcopy(kd)
     for v in list(ns.values()):
         cc = getattr(v, 'cache_clear', None)
         if callable(cc):
@@ -78,39 +130,10 @@ def _clear_caches(ns):
 
 def reset_module_state():
     for name, mod in MODULES.items():
-        names, snap = _PRISTINE[name]
-        ns = vars(mod)
-        for k in [k for k in ns if k not in names]:
-            v = ns[k]
-            # a name that appeared after import (lazily created cache): drop it
-            if not callable(v) or hasattr(v, 'cache_clear'):
-                del ns[k]
-        for k, (obj, orig) in snap.items():
-            if ns.get(k) is not obj:
-                ns[k] = obj
-            if obj != orig:
-                import copy
-                fresh = copy.deepcopy(orig)
-                if isinstance(obj, dict):
-                    obj.clear()
-                    obj.update(fresh)
-                elif isinstance(obj, list):
-                    obj[:] = fresh
-                elif isinstance(obj, set):
-                    obj.clear()
-                    obj.update(fresh)
-                elif isinstance(obj, bytearray):
-                    obj[:] = fresh
-        _clear_caches(ns)
-        for v in list(ns.values()):
-            if isinstance(v, type) and getattr(v, '__module__', None) == mod.__name__:
-                _clear_caches(vars(v))
-    # containers created after import at module level
-    for name, mod in MODULES.items():
-        names, snap = _PRISTINE[name]
-        for k, v in list(vars(mod).items()):
-            if k not in names and isinstance(v, (dict, list, set)):
-                v.clear()
+        msnap, classes = _PRISTINE[name]
+        _restore(mod, vars(mod), msnap, False)
+        for c, csnap in classes:
+            _restore(c, vars(c), csnap, True)
 
 
 _snapshot_modules()
@@ -269,6 +292,12 @@ def execute(scn, want_events=False):
                             ln = world.link_by_port(op['port'])
                             ln.device.power_on()
                             ln.rx.clear()
+                        elif what == 'rename':
+                            # the board was given another nickname and re-enumerated: its USB descriptors change
+                            dev = world.link_by_port(op['port']).device
+                            if hasattr(dev, 'usb_name'):
+                                dev.nick = op['nick']
+                                dev.usb_name = op['nick']
                         elif what == 'replace_device':
                             # another device now answers on this port name (board swapped while
                             # nothing holds the port open; port names are reused by the OS)
